@@ -332,8 +332,18 @@ def _foreign(ctx, d, pgpy):
         ctx.count('foreign_framings')
         ctx.count('evaluations')
         where = {'foreign': form, 'calg': calg, 'signers': signers, 'len': len(data)}
+        # half of them arrive armored, the way other producers armor: line widths up to the 76 columns the RFC allows, LF or CRLF, foreign header lines
+        transport = r.choice(['binary', 'binary', 'armor76', 'armor64', 'armor72-crlf', 'armor48-headers'])
+        where['transport'] = transport
+        data_in = seq
+        if transport != 'binary':
+            from ..ref import armor as _armor
+            wd = int(transport[5:7])
+            data_in = _armor.armor('MESSAGE', seq, headers=[('Version', 'Other 2.0'), ('Comment', 'made elsewhere')] if 'headers' in transport else (),
+                                   width=wd, eol='\r\n' if 'crlf' in transport else '\n')
+            ctx.count('foreign_armored')
         try:
-            m = pgpy.PGPMessage.from_blob(seq)
+            m = pgpy.PGPMessage.from_blob(data_in)
         except Exception as e:
             ctx.fail('foreign-message-not-importable', dict(where, err='%s: %s' % (type(e).__name__, str(e)[:160]), blob=hx(seq)[:200]))
             continue
